@@ -804,3 +804,13 @@ MUTANTS += [
       "            self.to_df().to_csv(path_or_buf=csv_filename, index=False, sep=separator)",
       "            self.to_df().head(1000).to_csv(path_or_buf=csv_filename, index=False, sep=separator)"),
 ]
+
+MUTANTS += [
+    # ---- audit: attribute / method names that do not exist on the reported objects (AttributeError at render / export time) ----
+    B("c17-renderer-reads-a-field-that-does-not-exist", ["C17"], PL,
+      "            all_x = [0] + buffer.level_change_times + [solution.horizon]", "            all_x = [0] + buffer.level_changes_time + [solution.horizon]"),
+    B("c17-renderer-calls-a-method-that-does-not-exist", ["C17"], PL,
+      "            solution.get_scheduled_tasks()", "            solution.get_schedule_tasks()"),
+    B("c16-excel-export-reads-a-missing-field", ["C16"], XL,
+      "        for task_name, task_start, task_end in ress.assignments:", "        for task_name, task_start, task_end in ress.assignements:"),
+]
